@@ -1,5 +1,6 @@
 import Driver.Util
 import Driver.Port
+import Driver.Middleware
 
 /-! One request per line on stdin, one response per line on stdout.  Unknown or malformed
 requests answer `bad-op` (never a default value). -/
@@ -7,6 +8,7 @@ requests answer `bad-op` (never a default value). -/
 def dispatch (ws : List String) : String :=
   match ws with
   | "port" :: _ | "split" :: _ | "atoi" :: _ | "join" :: _ | "c20holds" :: _ => (Driver.Port.handle ws).getD "bad-op"
+  | "mw" :: _ | "mwspec" :: _ | "c15holds" :: _ => (Driver.Middleware.handle ws).getD "bad-op"
   | _ => "bad-op"
 
 partial def loop (h : IO.FS.Stream) (out : IO.FS.Stream) : IO Unit := do
